@@ -5,6 +5,7 @@ CONSTANTS
   Offsets <- TraceOffsets
   BlockSize <- TraceBlock
   Known = @KNOWN@
+  Guard = TRUE
 CONSTRAINT Record
 POSTCONDITION Accepted
 CHECK_DEADLOCK FALSE
